@@ -30,6 +30,7 @@ type replayDriver struct {
 	Run        string   `json:"run"`        // -run regular expression
 	Race       bool     `json:"race"`
 	Input      string   `json:"input"` // what the test feeds the code
+	Template   string   `json:"template"` // optional: a test file with {{p_name}} placeholders filled from the solver's model
 }
 
 func loadDrivers() []replayDriver {
@@ -44,13 +45,51 @@ func loadDrivers() []replayDriver {
 	return ds
 }
 
+// modelValue turns an SMT-LIB integer such as "17" or "(- 5)" into Go syntax.
+func modelValue(v string) string {
+	v = strings.TrimSpace(v)
+	if strings.HasPrefix(v, "(-") {
+		return "-" + strings.TrimSpace(strings.TrimSuffix(strings.TrimPrefix(v, "(-"), ")"))
+	}
+	return v
+}
+
 func runDriver(repo string, d replayDriver) (bool, string, error) {
+	return runDriverModel(repo, d, nil)
+}
+
+func runDriverModel(repo string, d replayDriver, model map[string]string) (bool, string, error) {
 	tmp, err := os.MkdirTemp("", "gvc-replay-")
 	if err != nil {
 		return false, "", err
 	}
 	defer os.RemoveAll(tmp)
 	ov := map[string]map[string]string{"Replace": {}}
+	if d.Template != "" {
+		b, err := os.ReadFile(filepath.Join(verifDir, d.Template))
+		if err != nil {
+			return false, "", err
+		}
+		txt := string(b)
+		re := regexp.MustCompile(`\{\{(\w+)\}\}`)
+		missing := ""
+		txt = re.ReplaceAllStringFunc(txt, func(m string) string {
+			name := m[2 : len(m)-2]
+			for k, v := range model {
+				if k == name || strings.HasPrefix(k, name+"!") {
+					return modelValue(v)
+				}
+			}
+			missing = name
+			return "0"
+		})
+		if missing != "" {
+			return false, "", fmt.Errorf("the model has no value for %s", missing)
+		}
+		f := filepath.Join(tmp, "model_test.go")
+		os.WriteFile(f, []byte(txt), 0o644)
+		ov["Replace"][filepath.Join(repo, d.Dir, "zz_gvc_replay_model_test.go")] = f
+	}
 	for i, f := range d.Files {
 		src := filepath.Join(verifDir, f)
 		if !fileExists(src) {
@@ -106,8 +145,21 @@ func (r *Report) tryReplay(o checkOpts, ob *Obligation, rf *replayFile) *replayO
 		if err != nil || !re.MatchString(ob.Name) {
 			continue
 		}
-		rep, out, err := runDriver(o.repo, d)
-		oc := &replayOutcome{Driver: strings.Join(d.Files, ",") + " -run " + d.Run, Reproduced: rep, Input: d.Input, Output: out}
+		rep, out, err := runDriverModel(o.repo, d, rf.Model)
+		oc := &replayOutcome{Driver: strings.Join(d.Files, ",") + d.Template + " -run " + d.Run, Reproduced: rep, Input: d.Input, Output: out}
+		if d.Template != "" {
+			var used []string
+			if tb, e := os.ReadFile(filepath.Join(verifDir, d.Template)); e == nil {
+				for _, m := range regexp.MustCompile(`\{\{(\w+)\}\}`).FindAllStringSubmatch(string(tb), -1) {
+					for k, v := range rf.Model {
+						if k == m[1] || strings.HasPrefix(k, m[1]+"!") {
+							used = append(used, m[1]+" = "+modelValue(v))
+						}
+					}
+				}
+			}
+			oc.Input = d.Input + ": " + strings.Join(used, ", ")
+		}
 		if err != nil {
 			oc.Note = err.Error()
 		} else if !rep {
@@ -150,8 +202,8 @@ func cmdReplay(args []string) int {
 		if err != nil || !re.MatchString(rf.Obligation) {
 			continue
 		}
-		rep, out, err := runDriver(repo, d)
-		fmt.Printf("driver %v -run %s: reproduced=%v\n%s\n", d.Files, d.Run, rep, out)
+		rep, out, err := runDriverModel(repo, d, rf.Model)
+		fmt.Printf("driver %v%s -run %s: reproduced=%v\n%s\n", d.Files, d.Template, d.Run, rep, out)
 		if err != nil {
 			fmt.Println("  note:", err)
 		}
